@@ -345,13 +345,15 @@ Definition achar_tbl : list (N * string) :=
    code 1 "threshold_read_and_setable" and code 2 "threshold_readable" (constants
    THRESHOLD_IS_READABLE = 0x08, THRESHOLD_IS_READ_AND_SETTABLE = 0x04); its names are
    taken as they are. *)
-Definition expected_caps (f : sfull) : list string :=
-  (if sf_cap_ignore f =? 1 then ["ignore_sensor"] else []) ++
-  (if sf_cap_rearm f =? 1 then ["auto_rearm"] else []) ++
-  [nth (N.to_nat (sf_cap_hyst f))
+Definition expected_caps_of (ignore rearm hyst thr : N) : list string :=
+  (if ignore =? 1 then ["ignore_sensor"] else []) ++
+  (if rearm =? 1 then ["auto_rearm"] else []) ++
+  [nth (N.to_nat hyst)
        ["hysteresis_not_supported"; "hysteresis_readable"; "hysteresis_read_and_setable"; "hysteresis_fixed"] ""] ++
-  [nth (N.to_nat (sf_cap_thr f))
+  [nth (N.to_nat thr)
        ["threshold_not_supported"; "threshold_read_and_setable"; "threshold_readable"; "threshold_fixed"] ""].
+Definition expected_caps (f : sfull) : list string :=
+  expected_caps_of (sf_cap_ignore f) (sf_cap_rearm f) (sf_cap_hyst f) (sf_cap_thr f).
 
 Definition expected_hdr (s : srec) : hdr :=
   mkHdr (s_id (s_hdr s)) (s_version (s_hdr s)) (s_type s) (N.of_nat (length (s_body s))).
